@@ -193,12 +193,22 @@ func (w *World) Dump() (*Snapshot, error) {
 	tick := w.SeqTick
 	w.SeqTick = false
 	defer func() { w.SeqTick = tick }()
-	s := &Snapshot{Cols: map[string][]string{}, Rows: map[string][]Row{}, TakenL: w.Now()}
+	s, err := DumpDB(w.DB, w.Shift)
+	if err != nil {
+		return nil, err
+	}
+	s.TakenL = w.Now()
 	w.ids.mu.Lock()
 	s.IDs = w.ids.n
 	w.ids.mu.Unlock()
+	return s, nil
+}
+
+// DumpDB reads the five tables through any connection to the database file.
+func DumpDB(db *sql.DB, shift time.Duration) (*Snapshot, error) {
+	s := &Snapshot{Cols: map[string][]string{}, Rows: map[string][]Row{}, TakenL: time.Now().Add(-shift)}
 	for _, t := range Tables {
-		rows, err := w.DB.Query("SELECT * FROM " + t + " ORDER BY rowid")
+		rows, err := db.Query("SELECT * FROM " + t + " ORDER BY rowid")
 		if err != nil {
 			return nil, err
 		}
@@ -221,7 +231,7 @@ func (w *World) Dump() (*Snapshot, error) {
 			for i, v := range vals {
 				switch x := v.(type) {
 				case time.Time:
-					vals[i] = x.UTC().Add(-w.Shift)
+					vals[i] = x.UTC().Add(-shift)
 				case []byte:
 					vals[i] = append([]byte(nil), x...)
 				}
@@ -248,8 +258,13 @@ func (w *World) Restore(s *Snapshot) error {
 	w.ids.mu.Lock()
 	w.ids.n = s.IDs
 	w.ids.mu.Unlock()
+	return RestoreDB(w.DB, s, w.Shift)
+}
+
+// RestoreDB writes the snapshot through any connection to the database file.
+func RestoreDB(db *sql.DB, s *Snapshot, shift time.Duration) error {
 	ctx := context.Background()
-	conn, err := w.DB.Conn(ctx)
+	conn, err := db.Conn(ctx)
 	if err != nil {
 		return err
 	}
@@ -282,7 +297,7 @@ func (w *World) Restore(s *Snapshot) error {
 			args := make([]any, len(r))
 			for i, v := range r {
 				if tv, ok := v.(time.Time); ok {
-					args[i] = tv.Add(w.Shift)
+					args[i] = tv.Add(shift)
 				} else {
 					args[i] = v
 				}
@@ -423,4 +438,26 @@ func rowKey(r Row) string {
 		}
 	}
 	return lb.String()
+}
+
+// DiffIgnoring is Diff with some columns blanked ("table.column").
+func (s *Snapshot) DiffIgnoring(o *Snapshot, ignore ...string) string {
+	mask := func(x *Snapshot) *Snapshot {
+		c := &Snapshot{Cols: x.Cols, Rows: map[string][]Row{}, TakenL: x.TakenL}
+		for t, rows := range x.Rows {
+			for _, r := range rows {
+				rr := append(Row(nil), r...)
+				for _, ig := range ignore {
+					if strings.HasPrefix(ig, t+".") {
+						if i := x.Col(t, strings.TrimPrefix(ig, t+".")); i >= 0 {
+							rr[i] = "*"
+						}
+					}
+				}
+				c.Rows[t] = append(c.Rows[t], rr)
+			}
+		}
+		return c
+	}
+	return mask(s).Diff(mask(o))
 }
